@@ -1,5 +1,5 @@
 (* C10 — Edits are invertible: delete undoes insert. *)
-From GTS Require Import Base Arith Loc Seq BaseLemmas LocProofs EditProofs SeqProofs.
+From GTS Require Import Base Arith Loc Seq BaseLemmas LocProofs EditProofs SeqProofs JoinDen JoinLift UndoProofs.
 Open Scope Z_scope.
 
 (* residues are restored *)
@@ -20,6 +20,33 @@ Theorem C10_undo_insert_contig_partial : forall i n, 0 < n -> forall l,
   exists l', shift l i n = Ok l' /\ expand l' i (- n) = Ok l.
 Proof. exact undo_insert_contig. Qed.
 Print Assumptions C10_undo_insert_contig_partial.
+
+(* EVERY location (join, order, complement nested to any depth): after
+   insert;delete and after embed;delete the feature denotes the same ordered,
+   stranded residues as before, up to adjacent duplicates.  k1_after: at either
+   step no image point lands on an image range end and no image range is empty
+   (the complement of known finding K1).  Partial correctness: whenever both
+   steps return a location. *)
+Theorem C10_undo_insert_den : forall i n, 0 < n -> forall l l' l'',
+  k1_after (fun x => shift x i n) l -> shift l i n = Ok l' ->
+  k1_after (fun x => expand x i (- n)) l' -> expand l' i (- n) = Ok l'' ->
+  deq (den l'') (den l).
+Proof. exact undo_insert_den. Qed.
+Print Assumptions C10_undo_insert_den.
+
+Theorem C10_undo_embed_den : forall i n, 0 < n -> forall l l' l'',
+  k1_after (fun x => expand x i n) l -> expand l i n = Ok l' ->
+  k1_after (fun x => expand x i (- n)) l' -> expand l' i (- n) = Ok l'' ->
+  deq (den l'') (den l).
+Proof. exact undo_embed_den. Qed.
+Print Assumptions C10_undo_embed_den.
+
+Example C10_joins_example :
+  let l := Joined [Ranged 0 2 true false; Complemented (Joined [Ranged 3 6 false false; Point 8])] in
+  let l' := Joined [Ranged 0 2 true false; Complemented (Joined [Ranged 3 4 false false; Ranged 7 9 false false; Point 11])] in
+  k1_afterb (fun x => shift x 4 3) l = true /\ shift l 4 3 = Ok l' /\
+  k1_afterb (fun x => expand x 4 (- 3)) l' = true /\ expand l' 4 (- 3) = Ok l.
+Proof. vm_compute. repeat split; reflexivity. Qed.
 
 Example C10_example :
   shift (Ranged 2 6 true true) 4 3 = Ok (Joined [Ranged 2 4 true false; Ranged 7 9 false true]) /\
